@@ -283,7 +283,7 @@ func (t *Twin) Do(step []any) (Obs, error) {
 
 	case "Create":
 		name, kind, perm, m, ext, g := toStr(step[2]), toStr(step[3]), toInt(step[4]), toInt(step[5]), toStr(step[6]), toInt(step[7])
-		if F.Open >= 0 || F.Qt != "D" || ((kind == "L" || kind == "H") && !t.Dotu) {
+		if F.Open >= 0 || F.Qt != "D" || ((kind == "L" || kind == "H" || kind == "P") && !t.Dotu) {
 			return errObs(0), nil
 		}
 		if _, err := os.Lstat(w.Host(F.Path)); err != nil {
@@ -305,6 +305,8 @@ func (t *Twin) Do(step []any) (Obs, error) {
 		case "H":
 			G := t.fid(g)
 			err = os.Link(w.Host(G.Path), hp)
+		case "P":
+			// a named pipe: nothing is created; the name is then opened like the other special kinds
 		default:
 			file, err = os.OpenFile(hp, oflags(m)|os.O_CREATE, os.FileMode(perm&0o777))
 		}
